@@ -468,13 +468,19 @@ def build_against(repo_dir, cmd_name):
 
 def c07_model_jobs(tier, seed):
     q = tier == "quick"
+    base = {"GenSeed": 1, "NCases": 0, "Emit": "FALSE"}
     jobs = [("partition-exhaustive",
-             cfg_text({"MaxV": 5 if q else 6, "GenSeed": 1, "NCases": 0, "Emit": "FALSE"}, "InitA", "NextA", ["InvA"]),
-             4 if q else 8, 6000, False)]
+             cfg_text(dict(base, MinV=1, MaxV=6 if q else 8, TwoStatus="FALSE"), "InitA", "NextA", ["InvA"]),
+             4 if q else 8, 6000, False),
+            # towards the design bound of 10 validators: every active / inactive pattern, full preset grid, every pivot,
+            # 4 structured coin tables
+            ("partition-wide",
+             cfg_text(dict(base, MinV=7, MaxV=9 if q else 10, TwoStatus="TRUE"), "InitA", "NextA", ["InvA"]),
+             3 if q else 8, 6000, False)]
     ngen = 8 if q else 40
     for k in range(ngen):
         jobs.append(("gen-%d" % k,
-                     cfg_text({"MaxV": 10 + 2 * (k % 4) if q else 10 + 3 * (k % 8),
+                     cfg_text({"MinV": 1, "TwoStatus": "FALSE", "MaxV": 10 + 2 * (k % 4) if q else 10 + 3 * (k % 8),
                                "GenSeed": (seed * 271 + k * 31 + 5) % 30011, "NCases": 3 if q else 4, "Emit": "TRUE"},
                               "InitB", "NextB", ["InvB"]), 2, 6000, True))
     return jobs
@@ -513,9 +519,12 @@ def c07_spec_to_code(tier, seed, cov, binary=None):
         cov["tlc_runs"][name] = {"distinct": res.distinct, "generated": res.generated, "cases": len(cases),
                                  "wall_s": round(res.wall, 1)}
         allcases += cases
+    cov["exhaustive"]["partition-wide"] = (
+        "registries of %s validators, every active/inactive pattern (inactive kind alternating pending/exited), same preset "
+        "grid, 1 round, every pivot, 4 structured coin tables" % ("7..9" if tier == "quick" else "7..10"))
     cov["exhaustive"]["partition-exhaustive"] = (
         "registries of <= %d validators x {active,pending,exited} x presets (2..4 slots, 1..3 max committees, target 1..2), "
-        "1 round, all pivots, all coin tables up to 4 active" % (5 if tier == "quick" else 6))
+        "1 round, all pivots, all coin tables up to 4 active" % (6 if tier == "quick" else 8))
     res = replay_committee_cases(allcases, "gen", binary)
     cov["replayed_cases"] = res["cases"]
     cov["oracle_misses"] = res["oracle_misses"]
@@ -616,6 +625,27 @@ def c07_plan(tier, seed):
         plan.append({"kind": "chain", "chain": nxt(), "P": p, "nvals": nvals(p), "altair": altair, "later": later,
                      "epochs": 8 if i < 2 else (rng.randint(5, 8) if q else rng.randint(6, 14)),
                      "seed": rng.randrange(1 << 40)})
+    # real, signed, block-carrying histories built by harness/chain (deposits through the activation queue, exits,
+    # slashings, ejections, rewards / penalties / leaks, all forks, sync-committee rotations after real participation)
+    corners = ["leak-with-ejections", "mass-slashing", "deposit-mix"]
+    if not q:
+        corners += ["empty-epochs", "fork-boundary-blocks", "fork-boundary-gaps", "late-inclusion", "exact-two-thirds",
+                    "leak-across-forks", "exit-queue", "eth1-majority-edge", "withdrawal-sweep", "bls-changes-late",
+                    "sync-patterns", "genesis-balances", "never-merged", "s4-long", "wrong-votes"]
+    for cn in corners:
+        plan.append({"kind": "blocks", "chain": nxt(), "corner": cn, "seed": rng.randrange(1 << 40), "mid_p": 0.12})
+    nrand = 2 if q else 30
+    for i in range(nrand):
+        preset = "S1" if i == 0 else rng.choice(["S1", "S2", "S2", "S3", "S4"])
+        if i == 0:
+            forks = [1, 2, 3, 4]
+        else:
+            a = rng.choice([0, 0, 1, 2, 3])
+            forks = [a]
+            for _ in range(3):
+                forks.append(-1 if forks[-1] < 0 or rng.random() < 0.25 else forks[-1] + rng.randint(0, 3))
+        plan.append({"kind": "blocks", "chain": nxt(), "preset": preset, "forks": forks, "epochs": 12 if q else rng.randint(12, 18),
+                     "seed": rng.randrange(1 << 40), "mid_p": 0.12 if q else 0.2})
     return plan
 
 
@@ -751,6 +781,26 @@ def c07_code_to_spec(tier, seed, cov, binary=None, plan=None):
                 if len({len(m) for s in epc for m in s}) > 1:
                     bump("committee_sizes_differ_by_one")
                     break
+        if e["kind"] == "blocks":
+            h = json.loads(e["note"]["history"])
+            vol = set(h["vol_exits"])
+            bump("blocks_fork_" + e["fork"])
+            if e["boundary"]:
+                bump("blocks_boundary_" + e["boundary"])
+            if any(0 < v[0] <= cur for v in vals):
+                bump("blocks_validator_activated_via_queue")
+            if any(v[1] < 1000000 and k in vol for k, v in enumerate(vals)):
+                bump("blocks_validator_exited_voluntarily")
+            if any(v[3] for v in vals):
+                bump("blocks_validator_slashed")
+            if any(v[1] < 1000000 and not v[3] and k not in vol for k, v in enumerate(vals)):
+                bump("blocks_validator_ejected")
+            if len({v[2] for v in act}) > 1:
+                bump("blocks_unequal_effective_balances_from_rewards")
+            if len(vals) > 16 and h["ops"].get("deposits"):
+                bump("blocks_registry_grew_by_deposits")
+            if h["ops"].get("attestations"):
+                bump("blocks_after_real_attestations")
         if e["has_sync"] and len(set(e["state_sync_cur"])) < len(e["state_sync_cur"]):
             bump("sync_committee_with_duplicate_member")
         c = covs.get(i)
@@ -819,7 +869,12 @@ def c07_code_to_spec(tier, seed, cov, binary=None, plan=None):
                     "has_exited_validator", "has_slashed_validator", "unequal_effective_balances_among_active",
                     "next_epoch_active_set_differs", "several_committees_per_slot", "committee_sizes_differ_by_one",
                     "proposer_loop_2_or_more_iterations", "sync_loop_rejected_a_candidate", "epc_running", "epc_fresh",
-                    "registry_over_256", "kind_chain", "kind_mutated-upgraded"]
+                    "registry_over_256", "kind_chain", "kind_mutated-upgraded", "kind_blocks",
+                    "blocks_fork_phase0", "blocks_fork_altair", "blocks_fork_bellatrix", "blocks_fork_capella",
+                    "blocks_fork_deneb", "blocks_boundary_upgrade", "blocks_boundary_rotate",
+                    "blocks_validator_activated_via_queue", "blocks_validator_exited_voluntarily",
+                    "blocks_validator_slashed", "blocks_validator_ejected",
+                    "blocks_unequal_effective_balances_from_rewards", "blocks_after_real_attestations"]
             for k in need:
                 if not cls.get(k):
                     raise lib.InfraError("vacuity guard: no recorded state of class %s" % k)
@@ -943,7 +998,7 @@ def selftest():
     bad, _, _, _ = validate_committee_trace(cl[:rot[0]] + [json.dumps(e)], "st-sync", set())
     out["c07_unrotated_stored_sync_committee_rejected"] = bad == rot[0]
     # ---- C07 replayer with a canned mutation
-    _, _, ccases = run_committee_job(("st-gen", cfg_text({"MaxV": 10, "GenSeed": 3, "NCases": 2, "Emit": "TRUE"},
+    _, _, ccases = run_committee_job(("st-gen", cfg_text({"MinV": 1, "TwoStatus": "FALSE", "MaxV": 10, "GenSeed": 3, "NCases": 2, "Emit": "TRUE"},
                                                          "InitB", "NextB", ["InvB"]), 2, 900, True))
     res = replay_committee_cases(ccases, "st-clean")
     out["c07_replay_clean_tree_no_mismatch"] = not res["mismatches"]
